@@ -417,6 +417,14 @@ class Compress(Op):
     def kwargs(self, a, shapes=None):
         return {} if a.get("a") is None else {"axis": a["a"]}
 
+    def feed(self, rng, vals):
+        # the condition always drops the first entry, so the compressed dim differs from the input's
+        x = rand_array(rng, vals[0])
+        c = rand_array(rng, vals[1])
+        if vals[1]["e"] == "bool" and c.size:
+            c.reshape(-1)[0] = False
+        return [x, c]
+
 
 class OneHot(Op):
     """Typed by ONNX (no override in the pinned tree): only the oracle and the override table use it."""
